@@ -73,7 +73,7 @@ Spec == Init /\ [][Next]_<<vars, last>>
 NoRepeats == dup = 0
 IterAscending == [][ last'.op.op = "iter" =>
                        /\ \A i, j \in DOMAIN last'.ret : i < j => last'.ret[i] < last'.ret[j]
-                       /\ Elems(last'.ret) = S ]_vars
+                       /\ Elems(last'.ret) = S ]_<<vars, last>>
 
 Obs == [built |-> built, items |-> Sorted(S), len |-> Cardinality(S) + dup,
         mem |-> [i \in 1..(MaxV + 1) |-> IF (i - 1) \in S THEN 1 ELSE 0]]
